@@ -432,6 +432,55 @@ fn run_inner(sc: &J) -> Result<Option<String>, String> {
             for cut in 0..10 { if rd.read_value(&mut &out[..cut]).is_ok() { return Ok(Some(format!("message cut to {cut} bytes is accepted"))); } }
             match rd.read_value(&mut &out[..]) { Ok(back) if back == v => Ok(None), other => Ok(Some(format!("message does not read back: {other:?}"))) }
         }
+        // C11: parsing never panics; every operation on an accepted schema completes without panicking (a panic is caught by
+        // the wrapper and reported); canonical form re-parses to the same canonical form
+        "schema_ops" => {
+            let text = sc["text"].as_str().ok_or("text")?;
+            if let Ok(schema) = Schema::parse_str(text) {
+                // well-formedness of what was accepted: unique field names per record, enum default is a symbol, no nested union
+                fn wf(s: &Schema) -> Option<String> {
+                    match s {
+                        Schema::Record(r) => { let mut seen = std::collections::HashSet::new();
+                            for f in &r.fields { if !seen.insert(f.name.clone()) { return Some(format!("accepted record {:?} has two fields named {:?}", r.name, f.name)); } if let Some(m) = wf(&f.schema) { return Some(m); } } None }
+                        Schema::Enum(e) => { let mut seen = std::collections::HashSet::new(); for sy in &e.symbols { if !seen.insert(sy) { return Some(format!("accepted enum has duplicate symbol {sy}")); } }
+                            if let Some(d) = &e.default { if !e.symbols.contains(d) { return Some(format!("accepted enum default {d} is not a symbol")); } } None }
+                        Schema::Union(u) => { for v in u.variants() { if matches!(v, Schema::Union(_)) { return Some("accepted union directly contains a union".into()); } if let Some(m) = wf(v) { return Some(m); } } None }
+                        Schema::Array(a) => wf(&a.items), Schema::Map(m) => wf(&m.types),
+                        _ => None,
+                    }
+                }
+                if let Some(m) = wf(&schema) { return Ok(Some(m)); }
+                let canon = schema.canonical_form();
+                let _ = schema.fingerprint::<apache_avro::rabin::Rabin>();
+                let _ = serde_json::to_string(&schema).map_err(|e| e.to_string())?;
+                let _ = format!("{schema:?}");
+                match Schema::parse_str(&canon) {
+                    Ok(again) => if again.canonical_form() != canon { return Ok(Some(format!("canonical form is not a fixed point: {canon} -> {}", again.canonical_form()))); },
+                    Err(e) => return Ok(Some(format!("canonical form {canon} of an accepted schema does not parse: {e}"))),
+                }
+            }
+            Ok(None)
+        }
+        // C08: data written with `writer`, read with `reader`: the result is the value the resolution rules prescribe (`expect`,
+        // value DSL; "error" = the rules give no result), it validates against the reader schema and re-resolving changes nothing
+        "read_with_reader_schema" => {
+            let ws = Schema::parse_str(sc["writer"].as_str().ok_or("writer")?).map_err(|e| e.to_string())?;
+            let rs = Schema::parse_str(sc["reader"].as_str().ok_or("reader")?).map_err(|e| e.to_string())?;
+            let bytes = jhex(sc, "datum");
+            let got = apache_avro::from_avro_datum(&ws, &mut &bytes[..], Some(&rs));
+            if sc["expect"].as_str() == Some("error") {
+                return Ok(got.ok().map(|v| format!("the resolution rules give no result here, but reading returned {v:?}")));
+            }
+            let want = crate::dsl(&sc["expect"])?;
+            match got {
+                Ok(v) => {
+                    if v != want { return Ok(Some(format!("read {v:?}, the resolution rules prescribe {want:?}"))); }
+                    if !v.validate(&rs) { return Ok(Some(format!("result {v:?} does not validate against the reader schema"))); }
+                    match v.clone().resolve(&rs) { Ok(v2) if v2 == v => Ok(None), other => Ok(Some(format!("resolving the resolved value changes it: {other:?}"))) }
+                }
+                Err(e) => Ok(Some(format!("reading failed ({e}) where the rules prescribe {want:?}"))),
+            }
+        }
         k => Err(format!("unknown scenario kind {k:?}")),
     }
 }
